@@ -149,6 +149,7 @@ private:
 
                 if( isdigit( ch ))
                 {
+                    io_error_if( k >= sizeof( _text_buffer ) - 1, "Number too long in pnm file." );
                     _text_buffer[ k++ ] = static_cast< char >( ch );
                 }
                 else if( k )
